@@ -80,12 +80,13 @@ Fails(e) ==
 
 \* the serial is a function of the endpoint: well-formed strings that denote the same
 \* endpoint (whatever their reference and separator) carry the same serial.  Evaluated
-\* once, over all pairs of well-formed "gen" events of the trace.
+\* once: every well-formed "gen" event against the set of (endpoint, serial) pairs of the trace.
 SerialPure ==
   LET idx == { i : i \in { j \in 1..NRec : /\ Rec[j].k = "gen" /\ WellFormed(Rec[j].p)
-                                            /\ Rec[j].src.out = "ok" } } IN
+                                            /\ Rec[j].src.out = "ok" } }
+      es  == { <<Endpoint(Rec[i].p), Rec[i].src.serial>> : i \in idx } IN
   \A i \in idx :
-    IF \A j \in idx : Endpoint(Rec[j].p) = Endpoint(Rec[i].p) => Rec[j].src.serial = Rec[i].src.serial
+    IF \A t \in es : t[1] = Endpoint(Rec[i].p) => t[2] = Rec[i].src.serial
     THEN TRUE ELSE PrintT(<<"REJECT", i, {"serial_not_a_function_of_endpoint"}>>)
 
 VARIABLE l
